@@ -16,14 +16,15 @@ from ..common import ToolError
 from ..extract import base
 
 NEEDS = ["driver"]
-TOK = {"TXT": "word", "NL": "\n", "BC": "*/", "BO": "/*", "LC": "//", "TDQ": '"""', "DDQ": '""', "QDQ": '""""', "PDQ": '"""""', "TSQ": "'''", "BS": "\\", "HASH": "#", "BT": "`", "DQ": '"'}
+TOK = {"TXT": "word", "NL": "\n", "CRLF": "\r\n", "CR": "\r", "BC": "*/", "BO": "/*", "LC": "//", "TDQ": '"""', "DDQ": '""', "QDQ": '""""', "PDQ": '"""""', "TSQ": "'''", "BS": "\\", "HASH": "#", "BT": "`", "DQ": '"'}
 POSITIONS = ["type", "field", "variant", "vfield", "alias", "uvariant", "tagged"]
 MARK = re.compile(r"D\d+x")
 
 
 def doc_text(doc):
     """token sequence -> text; every token is followed by a marker so that its fate can be traced"""
-    return " ".join(TOK[t] + f" D{i}x" if t != "NL" else f"\nD{i}x" for i, t in enumerate(doc))
+    # a line-break token has a word before it, so that it is never the (trimmed) beginning of the text
+    return " ".join(TOK[t] + f" D{i}x" if t not in ("NL", "CRLF", "CR") else f"w{TOK[t]}D{i}x" for i, t in enumerate(doc))
 
 
 def attr(doc, style, indent=""):
@@ -32,15 +33,15 @@ def attr(doc, style, indent=""):
         return "".join(f"{indent}/// {l}\n" for l in text.split("\n"))
     if style == "block":
         return f"{indent}/** {text} */\n"
-    esc = text.replace("\\", "\\\\").replace('"', '\\"').replace("\n", "\\n")
+    esc = text.replace("\\", "\\\\").replace('"', '\\"').replace("\n", "\\n").replace("\r", "\\r")
     return f'{indent}#[doc = "{esc}"]\n'
 
 
 def usable(doc, style):
     if style == "block":       # the text must not end the Rust block comment itself, and /* must not open a nested one
-        return "BC" not in doc and "BO" not in doc
-    if style == "line":
-        return True
+        return "BC" not in doc and "BO" not in doc and "CR" not in doc
+    if style == "line":        # a bare carriage return is not allowed in a Rust `///` comment; CR LF is an ordinary line ending
+        return "CR" not in doc
     return True
 
 
@@ -82,8 +83,10 @@ def symbols(lang, text):
             out.append("BO"); i += 2; continue
         if not py and two == "*/":
             out.append("BC"); i += 2; continue
+        if two == "\r\n":
+            out.append("NL"); i += 2; continue
         c = text[i]
-        s = {"\n": "NL", '"': "DQ", "'": "SQ", "\\": "BS", "#": "HASH", "`": "BT"}.get(c)
+        s = {"\n": "NL", "\r": "CR", '"': "DQ", "'": "SQ", "\\": "BS", "#": "HASH", "`": "BT"}.get(c)
         if s:
             out.append(s)
         elif not out or out[-1] != "X":
